@@ -8,8 +8,8 @@
 //   (H3) the current collector is self-consistent (the property's own hypothesis);
 //   dispatch::get_default hands the closure the thread's current collector (C02).
 // Under (H1)-(H3), for EVERY cached value and published level those contracts allow, before and after a re-evaluation:
-// delivered <=> the current collector's own filter accepts.  The end-to-end runs through the real registry are the
-// thorough tier (macro_guard.kani.rs).
+// delivered <=> the current collector's own filter accepts.  End-to-end runs through the real registry did not finish
+// under CBMC (50 min / 21 GB for the lightest) and are not registered (contracts/C01/unregistered/).
 use crate::{collect::Interest, dispatch::Dispatch, span, Collect, Event, Level, Metadata};
 use tracing_core::LevelFilter;
 use core::sync::atomic::{AtomicUsize, AtomicU8, Ordering as AO};
